@@ -470,6 +470,22 @@ def _is_zero_t(t):
     return isinstance(t, Term) and t.op == "const" and isinstance(t.args[0], (int, float, Fraction)) and not isinstance(t.args[0], bool) and t.args[0] == 0
 
 
+def _truth_of(c):
+    """the truth value of a condition, written as `any` of a mask where it is one:
+    a non-zero count of m, min(v) < c, max(v) > c  are  any(m), any(v < c), any(v > c)"""
+    if not isinstance(c, Term):
+        return c
+    if c.op == "count" and len(c.args) == 1 and isinstance(c.args[0], Term):
+        return Term("any", c.args[0])
+    if c.op in ("lt", "le", "gt", "ge") and len(c.args) == 2:
+        l_, r_ = c.args
+        if isinstance(l_, Term) and len(l_.args) == 1 and ((l_.op == "amin" and c.op in ("lt", "le")) or (l_.op == "amax" and c.op in ("gt", "ge"))) and not (isinstance(r_, Term) and r_.op in ("amin", "amax")):
+            return Term("any", Term(c.op, l_.args[0], r_))
+        if isinstance(r_, Term) and len(r_.args) == 1 and ((r_.op == "amin" and c.op in ("gt", "ge")) or (r_.op == "amax" and c.op in ("lt", "le"))) and not (isinstance(l_, Term) and l_.op in ("amin", "amax")):
+            return Term("any", Term(c.op, l_, r_.args[0]))
+    return c
+
+
 def _is_none_t(x):
     return isinstance(x, Term) and x.op == "const" and x.args[0] is None
 
@@ -967,8 +983,12 @@ class Normalizer:
             return self.linear_reduce("trace", a, cyclic=True)
         if op in ("sum", "mean", "average"):
             return self.linear_reduce(op, a)
+        if op == "full" and len(a) >= 2 and isinstance(a[0], Term) and a[0].op == "const" and (a[0].args[0] is True or (isinstance(a[0].args[0], (int, Fraction)) and not isinstance(a[0].args[0], bool) and a[0].args[0] == 1)):
+            return self.nf(Term("ones", *a[1:]))  # np.full(shape, True / 1) == np.ones(shape)
         if op == "phi":
-            c0 = a[0]
+            c0 = _truth_of(a[0])
+            if c0 is not a[0]:
+                return self.nf(Term("phi", c0, a[1], a[2]))
             if isinstance(c0, Term) and c0.op == "not" and len(c0.args) == 1:
                 return self.nf(Term("phi", c0.args[0], a[2], a[1]))  # if not c: A else: B
             if isinstance(c0, Term) and c0.op in ("eq", "ne") and len(c0.args) == 2 and any(_is_zero_t(z) for z in c0.args) and not all(_is_zero_t(z) for z in c0.args):
